@@ -233,6 +233,16 @@ def run(ctx, only=None):
                 surfaced = any(x[1].startswith("proto:") for x in res.values()) or bool(closed_evs)
                 if not surfaced:
                     v.append(f"fault '{info['fault']}' was neither reported to a caller (protocol error) nor as a closing event; results {sorted((k, x[1][:40]) for k, x in res.items())}, events {evs}")
+        if info and info["fault"] == "w" and not info["cancelled"] and r.get("model_segs") and len(r["model_segs"]) == len(r["impl_segs"]):
+            # failing writes: WHO is told is decided by which write fails (the caller whose noidle or request could not be written gets
+            # the I/O error, the callers behind it see the connection closed; a failing re-idle write is a closing event).  The model of
+            # the unchanged loop (whose steps Props/C08.v quantifies over) says who; the client must tell the same callers the same thing.
+            mres = L.Trace({"ops": r["ops"], "impl_segs": r["model_segs"], "impl_raw": ""}).results()
+            for rid in sorted(set(mres) | set(res)):
+                a, b_ = res.get(rid, (None, "<never resolved>"))[1], mres.get(rid, (None, "<never resolved>"))[1]
+                if a != b_ and (a.startswith("proto:") or b_.startswith("proto:") or a == "closed" or b_ == "closed"):
+                    v.append(f"writes fail: request {rid} was told {a!r}; by the loop's step function (who is in flight when the write fails) it is {b_!r}")
+                    break
         for m in v[:3]:
             fails.append(Failure(s.model_case(), f"[{s.note}] " + m, extra={"impl_case": r["impl_case"], "info": {"fault": info["fault"], "requests": {str(k): list(x) for k, x in info["requests"].items()}, "cancelled": sorted(info["cancelled"])} if info else None}))
     if only is not None:
